@@ -291,6 +291,7 @@ Proof.
     rewrite frames_spawn. unfold all_frames in *. simpl.
     eapply join_transfer; [ | | exact Inv]; [|intros jid; rewrite count_app; simpl; lia].
     intros f Hf. apply in_app_iff in Hf. destruct Hf as [Hf|[<-|[]]]; [left; exact Hf | right; intros; exact I].
+  - simpl in H. destruct (Nat.ltb r (length (s_rrs s))); [|discriminate]. inversion H; subst; clear H. exact Inv.
 Qed.
 
 Lemma init_join : forall k progs, join_inv (init k progs).
@@ -612,6 +613,7 @@ Proof.
   - simpl in H. destruct (Nat.ltb slot (length (s_slots s))); [|discriminate]. inversion H; subst; clear H.
     intros tid st Hin. unfold spawn in Hin. simpl in Hin. apply in_app_iff in Hin. destruct Hin as [Hin|[Q|[]]]; [exact (Inv tid st Hin)|].
     inversion Q; subst. apply single_j. intros j; discriminate.
+  - simpl in H. destruct (Nat.ltb r (length (s_rrs s))); [|discriminate]. inversion H; subst; clear H. exact Inv.
 Qed.
 
 Lemma init_jtasks : forall k progs, jtasks_ok (init k progs).
@@ -810,6 +812,7 @@ Proof.
   - simpl in H. destruct (Nat.ltb slot (length (s_slots s))); [|discriminate]. inversion H; subst; clear H.
     intros tid st Hin. unfold spawn in Hin. simpl in Hin. apply in_app_iff in Hin. destruct Hin as [Hin|[Q|[]]]; [exact (Inv tid st Hin)|].
     inversion Q; subst. apply uw_single. reflexivity.
+  - simpl in H. destruct (Nat.ltb r (length (s_rrs s))); [|discriminate]. inversion H; subst; clear H. exact Inv.
 Qed.
 
 Lemma reachable_uwtasks : forall k progs s, reachable (init k progs) s -> uwtasks_ok s.
